@@ -24,23 +24,23 @@ fn scen(rng: &mut Rng) -> Vec<(Cfg, Entries)> {
 fn read_everything<R: std::io::Read + std::io::Seek>(src: R, keys: &[Vec<u8>]) -> Result<Vec<String>, String> {
     // a digest of every read API: scan both ways, seeks, ranges, prefixes
     let mut out = vec![];
-    let r = Reader::new(src).map_err(|e| format!("open: {}", e))?;
+    let r = Reader::new(src).map_err(|e| format!("open: {}", err_str(&e)))?;
     out.push(format!("len={} ct={:?}", r.len(), r.compression_type()));
-    let mut c = r.into_cursor().map_err(|e| e.to_string())?;
-    let mut n = 0; while let Some((k, v)) = c.move_on_next().map_err(|e| format!("next: {}", e))? { out.push(format!("F {} {}", hex(k), hex(v))); n += 1; if n > 100000 { return Err("runaway".into()); } }
+    let mut c = r.into_cursor().map_err(|e| err_str(&e))?;
+    let mut n = 0; while let Some((k, v)) = c.move_on_next().map_err(|e| format!("next: {}", err_str(&e)))? { out.push(format!("F {} {}", hex(k), hex(v))); n += 1; if n > 100000 { return Err("runaway".into()); } }
     c.reset();
-    while let Some((k, _)) = c.move_on_prev().map_err(|e| format!("prev: {}", e))? { out.push(format!("B {}", hex(k))); }
+    while let Some((k, _)) = c.move_on_prev().map_err(|e| format!("prev: {}", err_str(&e)))? { out.push(format!("B {}", hex(k))); }
     for q in keys.iter().step_by(1 + keys.len() / 25) {
         let mut q2 = q.clone(); q2.push(1);
         for p in [q.clone(), q2] {
-            out.push(format!("GE {:?}", c.move_on_key_greater_than_or_equal_to(&p).map_err(|e| format!("GE: {}", e))?.map(|e| hex(e.0))));
-            out.push(format!("LE {:?}", c.move_on_key_lower_than_or_equal_to(&p).map_err(|e| format!("LE: {}", e))?.map(|e| hex(e.0))));
-            out.push(format!("EQ {:?}", c.move_on_key_equal_to(&p).map_err(|e| format!("EQ: {}", e))?.map(|e| hex(e.0))));
+            out.push(format!("GE {:?}", c.move_on_key_greater_than_or_equal_to(&p).map_err(|e| format!("GE: {}", err_str(&e)))?.map(|e| hex(e.0))));
+            out.push(format!("LE {:?}", c.move_on_key_lower_than_or_equal_to(&p).map_err(|e| format!("LE: {}", err_str(&e)))?.map(|e| hex(e.0))));
+            out.push(format!("EQ {:?}", c.move_on_key_equal_to(&p).map_err(|e| format!("EQ: {}", err_str(&e)))?.map(|e| hex(e.0))));
         }
     }
     let src = c.into_inner();
-    let mut it = Reader::new(src).map_err(|e| format!("reopen: {}", e))?.into_range_iter(keys.get(keys.len() / 4).cloned().unwrap_or_default()..).map_err(|e| e.to_string())?;
-    let mut n = 0; while let Some((k, _)) = it.next().map_err(|e| format!("range: {}", e))? { n += 1; if n % 7 == 0 { out.push(format!("R {}", hex(k))); } }
+    let mut it = Reader::new(src).map_err(|e| format!("reopen: {}", err_str(&e)))?.into_range_iter(keys.get(keys.len() / 4).cloned().unwrap_or_default()..).map_err(|e| err_str(&e))?;
+    let mut n = 0; while let Some((k, _)) = it.next().map_err(|e| format!("range: {}", err_str(&e)))? { n += 1; if n % 7 == 0 { out.push(format!("R {}", hex(k))); } }
     Ok(out)
 }
 
@@ -89,11 +89,13 @@ fn c12_faults_surface_as_err() {
     std::panic::set_hook(Box::new(|_| {}));
     let mut rng = Rng::new(seed() + 32);
     let (mut write_faults, mut read_faults, mut merge_faults) = (0, 0, 0);
-    for (cfg, es) in scen(&mut rng).into_iter().take(if tier_thorough() { 6 } else { 4 }) {
+    // every scenario (so every codec); in the quick tier the later ones with a coarser sample of fault points
+    for (si, (cfg, es)) in scen(&mut rng).into_iter().enumerate() {
+        let coarse = !tier_thorough() && si >= 4;
         // --- sink fails at its k-th call (write or flush), for every k ---
         let mut probe = SchedSink::new(1, 64, false); { let mut w = cfg.builder().build(&mut probe); for (k, v) in &es { w.insert(k, v).unwrap(); } w.finish().unwrap(); }
         let total_calls = probe.calls;
-        let step = if tier_thorough() || total_calls < 400 { 1 } else { total_calls / 400 };
+        let step = if coarse { 1 + total_calls / 60 } else if tier_thorough() || total_calls < 400 { 1 } else { total_calls / 400 };
         for k in (1..=total_calls).step_by(step).chain([total_calls]) {
             for kind in [std::io::ErrorKind::Other, std::io::ErrorKind::WriteZero] {
                 let mut sink = SchedSink::new(1, 64, false); sink.fail_at = Some(k); sink.fail_kind = kind;
@@ -108,7 +110,7 @@ fn c12_faults_surface_as_err() {
         // --- source fails at its k-th call during a full read workload ---
         let bytes = write_file(&cfg, &es); let keys: Vec<Vec<u8>> = es.iter().map(|e| e.0.clone()).collect();
         let mut probe = SchedSource::new(bytes.clone(), 1, usize::MAX, false); let _ = read_everything(&mut probe, &keys).unwrap(); let total = probe.calls;
-        let step = if tier_thorough() || total < 500 { 1 } else { total / 500 };
+        let step = if coarse { 1 + total / 150 } else if tier_thorough() || total < 500 { 1 } else { total / 500 };
         for k in (1..=total).step_by(step) {
             let mut src = SchedSource::new(bytes.clone(), 1, usize::MAX, false); src.fail_at = Some(k);
             match catch_unwind(AssertUnwindSafe(|| read_everything(&mut src, &keys))) { Err(_) => cex(format!("C12 reader panicked when the source failed at its call #{} of {} cfg={:?}", k, total, cfg)),
@@ -143,14 +145,14 @@ fn c12_faults_surface_as_err() {
             let mf = Flaky { n: Rc::new(Cell::new(0)), fail_at: mf_fail, fired: f2.clone() };
             let mut b = Sorter::builder(mf.clone()); b.dump_threshold(0).allow_realloc(false).max_nb_chunks(2);
             let mut s = b.chunk_creator(Chunks { created: Cell::new(0), fail_create_at: create_fail, io_fail_at: io_fail, io_fail_one: one.get(), bad_trailer: bad, fired: f2.clone(), seek_calls: sk2.clone() }).build();
-            for (k, v) in &big { s.insert(k, v).map_err(|e| format!("{}", e))?; }
+            for (k, v) in &big { s.insert(k, v).map_err(|e| err_str(&e))?; }
             let mut n = 0;
             match route {
-                0 => { let mut it = s.into_stream_merger_iter().map_err(|e| format!("{}", e))?; while let Some(_) = it.next().map_err(|e| format!("{}", e))? { n += 1; } }
-                1 => { let mut w = grenad::Writer::memory(); s.write_into_stream_writer(&mut w).map_err(|e| format!("{}", e))?; let bytes = w.into_inner().map_err(|e| e.to_string())?;
+                0 => { let mut it = s.into_stream_merger_iter().map_err(|e| err_str(&e))?; while let Some(_) = it.next().map_err(|e| err_str(&e))? { n += 1; } }
+                1 => { let mut w = grenad::Writer::memory(); s.write_into_stream_writer(&mut w).map_err(|e| err_str(&e))?; let bytes = w.into_inner().map_err(|e| e.to_string())?;
                        n = decode_file(&bytes, None).map_err(|e| format!("written file malformed: {}", e))?.entries.len(); }
-                _ => { let cursors = s.into_reader_cursors().map_err(|e| format!("{}", e))?; let mut mb = Merger::builder(mf); mb.extend(cursors);
-                       let mut it = mb.build().into_stream_merger_iter().map_err(|e| format!("{}", e))?; while let Some(_) = it.next().map_err(|e| format!("{}", e))? { n += 1; } }
+                _ => { let cursors = s.into_reader_cursors().map_err(|e| err_str(&e))?; let mut mb = Merger::builder(mf); mb.extend(cursors);
+                       let mut it = mb.build().into_stream_merger_iter().map_err(|e| err_str(&e))?; while let Some(_) = it.next().map_err(|e| err_str(&e))? { n += 1; } }
             }
             Ok(n) })).map_err(|_| ());
         (r, fired.get())
@@ -171,7 +173,7 @@ fn c12_faults_surface_as_err() {
         merge_faults += 1;
     }
     for c in 1..=4 { for bad in [false, true] { for route in 0..3 {
-        judge(format!("the chunk creator failed at its call #{} ({})", c, if bad { "Error::InvalidFormatVersion" } else { "io error" }), route, drive(0, c, None, bad, route), "");
+        judge(format!("the chunk creator failed at its call #{} ({})", c, if bad { "Error::InvalidFormatVersion" } else { "io error" }), route, drive(0, c, None, bad, route), if bad { "InvalidFormatVersion" } else { "injected create failure" });
         merge_faults += 1; } } }
     // exactly ONE chunk fails, at a call where the clean runs rewind / reposition it (or on the call after): this hits the
     // reopening of a chunk for a chunk merge or for the final read while every other chunk -- the merged one included -- works
@@ -202,8 +204,8 @@ fn c12_faults_surface_as_err() {
         if let Some((which, k)) = fail { if which == 0 { s0.fail_at = Some(k) } else { s1.fail_at = Some(k) } }
         let (s0, s1) = (Counted { inner: s0, calls: c[0].clone() }, Counted { inner: s1, calls: c[1].clone() });
         let r = catch_unwind(AssertUnwindSafe(|| -> Result<usize, String> {
-            let mut b = Merger::builder(First); b.push(Reader::new(s0).map_err(|e| e.to_string())?.into_cursor().map_err(|e| e.to_string())?); b.push(Reader::new(s1).map_err(|e| e.to_string())?.into_cursor().map_err(|e| e.to_string())?);
-            let mut it = b.build().into_stream_merger_iter().map_err(|e| e.to_string())?; let mut n = 0; while let Some(_) = it.next().map_err(|e| e.to_string())? { n += 1; } Ok(n) }));
+            let mut b = Merger::builder(First); b.push(Reader::new(s0).map_err(|e| err_str(&e))?.into_cursor().map_err(|e| err_str(&e))?); b.push(Reader::new(s1).map_err(|e| err_str(&e))?.into_cursor().map_err(|e| err_str(&e))?);
+            let mut it = b.build().into_stream_merger_iter().map_err(|e| err_str(&e))?; let mut n = 0; while let Some(_) = it.next().map_err(|e| err_str(&e))? { n += 1; } Ok(n) }));
         (r, [c[0].get(), c[1].get()])
     };
     let (clean, totals) = run_merge(None);
